@@ -125,7 +125,11 @@ impl ElementRaw {
                                             );
                                         }
                                     }
-                                    model_locked.reference_origins.insert(refpath_new, reflist);
+                                    model_locked
+                                        .reference_origins
+                                        .entry(refpath_new)
+                                        .or_default()
+                                        .extend(reflist);
                                 }
                             }
                         }
@@ -840,7 +844,11 @@ impl ElementRaw {
                             ref_element.0.write().set_character_data(refstr.clone(), version)?;
                         }
                     }
-                    model_locked.reference_origins.insert(refstr, ref_elements);
+                    model_locked
+                        .reference_origins
+                        .entry(refstr)
+                        .or_default()
+                        .extend(ref_elements);
                 }
             }
         }
